@@ -166,6 +166,8 @@ type item struct {
 	nrows  int
 	ev     int // variant of E / J
 	items  []item
+	dup    int    // C only: hand-encoded body with REPEATED top-level keys (0 = none); the abstract item is what a last-wins map decode sees
+	decoy  string // the measurement carried by the earlier, overridden "m" key
 }
 
 func names(ns []string) string {
@@ -216,6 +218,21 @@ func (it item) value() interface{} {
 		cols := om{}
 		for _, cn := range it.cols {
 			cols = append(cols, kvp{cn, colVals(cn, it.nrows)})
+		}
+		other := om{{"time", colVals("time", it.nrows)}, {"zz", colVals("zz", it.nrows)}}
+		switch it.dup {
+		case 1: // {m: decoy, columns, m: real}
+			return om{{"m", it.decoy}, {"columns", cols}, {"m", it.m.val()}}
+		case 2: // {m: decoy, m: real, columns}
+			return om{{"m", it.decoy}, {"m", it.m.val()}, {"columns", cols}}
+		case 3: // {columns, m: decoy, m: real}
+			return om{{"columns", cols}, {"m", it.decoy}, {"m", it.m.val()}}
+		case 4: // {m: real, columns: other, columns: real}
+			return om{{"m", it.m.val()}, {"columns", other}, {"columns", cols}}
+		case 5: // {columns: other, m: decoy, columns: real, m: real}
+			return om{{"columns", other}, {"m", it.decoy}, {"columns", cols}, {"m", it.m.val()}}
+		case 6: // {m: decoy, columns, m: real, m: real} (three times)
+			return om{{"m", it.decoy}, {"columns", cols}, {"m", it.decoy}, {"m", it.m.val()}}
 		}
 		return om{{"m", it.m.val()}, {"columns", cols}}
 	case 'R':
@@ -323,6 +340,9 @@ func (t top) bytes() []byte {
 func (it item) features(f map[string]bool, depth int) {
 	switch it.kind {
 	case 'C', 'R':
+		if it.dup != 0 {
+			f["dup-key"] = true
+		}
 		if it.m.name() == "" {
 			f["empty-m"] = true
 		}
@@ -404,7 +424,12 @@ func (g *gen) colItem(m mval) item {
 	if len(cols) == 0 {
 		cols = []string{"v"}
 	}
-	return item{kind: 'C', m: m, cols: cols, nrows: 1 + g.r.Intn(2)}
+	it := item{kind: 'C', m: m, cols: cols, nrows: 1 + g.r.Intn(2)}
+	if g.r.Chance(8) {
+		it.dup = 1 + g.r.Intn(6)
+		it.decoy = vh.Pick(g.r, []string{"cpu", "mem", "billing", "other", ""})
+	}
+	return it
 }
 
 func (g *gen) rowItem(m mval) item {
@@ -547,7 +572,7 @@ func (e *env) mpCase(mode string, hdr, qdb *string, t top) {
 	}
 	nontriv := len(f) > 0 || mode != "rbac" || (hdr != nil && qdb != nil && *hdr != *qdb) || o.status != "ok"
 	e.c.Case(op, nontriv)
-	e.monitors(reqInfo{endpoint: "msgpack", mode: mode, named: namedDBs(hdr, qdb), emptyM: f["empty-m"],
+	e.monitors(reqInfo{endpoint: "msgpack", mode: mode, named: namedDBs(hdr, qdb), emptyM: f["empty-m"], dupKey: f["dup-key"],
 		replay: fmt.Sprintf("POST /api/v1/write/msgpack%s header x-arc-database=%s, RBAC mode %s (allow-list allowed_db: cpu, mem), body (msgpack, hex) %s  [op: %s]  -> HTTP %d; CheckPermission calls %v; buffer keys %q; storage paths %q",
 			qs(q), show(hdr), mode, hex.EncodeToString(body), op, o.code, o.checks, o.keys, o.paths)}, &o)
 }
@@ -786,6 +811,17 @@ func (e *env) grid() {
 	e.oneCase("csv", "rbac", nil, nil, sp("cpu"), true, []string{"v"})
 	e.oneCase("parquet", "rbac", sp("other_db"), nil, sp("cpu"), true, nil)
 	e.oneCase("parquet", "rbac", nil, nil, sp("cpu"), true, nil)
+	// (0a) hand-encoded msgpack bodies that REPEAT a top-level key, every order; real = what a last-wins map decode
+	// sees (and what the WAL reader / the replica will see), decoy = the overridden earlier value
+	for dup := 1; dup <= 6; dup++ {
+		for _, rd := range [][2]string{{"billing", "cpu"}, {"cpu", "billing"}, {"cpu", "mem"}, {"cpu", ""}, {"", "cpu"}} {
+			it := item{kind: 'C', m: mval{s: rd[0]}, cols: []string{"time", "v"}, nrows: 1, dup: dup, decoy: rd[1]}
+			e.mpCase("rbac", adb, nil, top{kind: 'M', it: it})
+			e.mpCase("rbac", adb, nil, top{kind: 'A', items: []item{it}})
+			e.mpCase("rbac", adb, nil, top{kind: 'M', it: item{kind: 'B', items: []item{it}}})
+			e.mpCase("off", adb, nil, top{kind: 'M', it: it})
+		}
+	}
 	// (0b) several measurements in ONE request: allowed + allowed, allowed + denied, denied + allowed — every
 	// endpoint that can carry more than one measurement, every msgpack container shape
 	for _, pair := range [][2]string{{"cpu", "billing"}, {"billing", "cpu"}, {"cpu", "mem"}, {"cpu", "cpu"}} {
